@@ -108,8 +108,9 @@ Theorem c13_squeeze_safe : forall (A : Type) (xs : list (arr A)) D s,
 Proof. exact @squeeze_safe_lemma. Qed.
 Print Assumptions c13_squeeze_safe.
 
-(* without that hypothesis the statement is false of the code as written (finding D9): a 1x1
-   statistic comes back 0-dimensional *)
+(* without that hypothesis the statement is false of the bare-squeeze code (finding D9, the code
+   before "fix: unbatch squeezes only the two batching axes"): a 1x1 statistic comes back
+   0-dimensional.  harness/c13.py reports a VIOLATION if the real unbatch() behaves like [Bare]. *)
 Theorem c13_squeeze_safe_refuted :
   exists (xs : list (arr Z)) D s a,
     0 < D /\ zlen xs mod D = 0 /\ xs <> [] /\ Forall (wf_item s) xs /\
@@ -118,7 +119,7 @@ Theorem c13_squeeze_safe_refuted :
 Proof. exact squeeze_unsafe_witness. Qed.
 Print Assumptions c13_squeeze_safe_refuted.
 
-(* with explicit axes (jnp.squeeze(v, axis=0), the proposed repair) shapes are always preserved *)
+(* with explicit axes (jnp.squeeze(v, axis=0), the repaired code) shapes are always preserved *)
 Theorem c13_squeeze_axis0_safe : forall (A : Type) (xs : list (arr A)) D s,
   0 < D -> zlen xs mod D = 0 -> xs <> [] -> Forall (wf_item s) xs ->
   exists a, batch_arr xs D = Some a /\ unbatch_arr Axis0 a = xs.
